@@ -21,6 +21,7 @@ import Fca.Drv.C05
 import Fca.Drv.C09
 import Fca.Drv.C17
 import Fca.Drv.C12
+import Fca.Drv.C11
 open Lean Fca.Drv
 
 def allHandlers : List (String × Handler) :=
@@ -42,7 +43,8 @@ def allHandlers : List (String × Handler) :=
   Fca.Drv.C05.handlers ++
   Fca.Drv.C09.handlers ++
   Fca.Drv.C17.handlers ++
-  Fca.Drv.C12.handlers
+  Fca.Drv.C12.handlers ++
+  Fca.Drv.C11.handlers
 
 def dispatch (line : String) : String :=
   match Json.parse line with
